@@ -128,8 +128,22 @@ func GenModule(t *rapid.T, noFail bool) Module {
 			}
 		case 9:
 			f := fresh("f")
-			line("def %s(p = %s, q = [%s], *, k = {\"d\": %s}):", f, val(), val(), val())
-			line("    return p")
+			ret := "p"
+			switch vk.Uniform(t, 4) {
+			case 0:
+				line("def %s(p = %s, q = [%s], *, k = {\"d\": %s}):", f, val(), val(), val())
+			case 1:
+				// optional keyword-only parameters after a mandatory one, and the other way round
+				line("def %s(p = [%s], *, must, k = {\"d\": %s}, k2 = [%s]):", f, val(), val(), val())
+				ret = "(p, k2)"
+			case 2:
+				line("def %s(*args, k0 = [%s], must, k = {\"d\": %s}, **kw):", f, val(), val())
+				ret = "(k0, k)"
+			case 3:
+				line("def %s(p, q = [%s], *rest, must1, must2, k = [%s]):", f, val(), val())
+				ret = "(q, k)"
+			}
+			line("    return %s", ret)
 			vars = append(vars, ModVar{f, "func"})
 		case 10:
 			mk, cvar := fresh("mk"), fresh("c")
